@@ -831,3 +831,9 @@ def r15(ctx, R):
             R.check(sup, f'{ci.name}.{name} :: calls the implementation it overrides ({nxt.name}.{name})', w, f'super().{name}(..)', 'no call of the inherited implementation')
     if n < 6:
         raise AnalysisError(f'C19.R15: only {n} overriding life-cycle callbacks found')
+
+
+@rule('C19', 'C19.R16', 'stopping at a block boundary and continuing gives the uninterrupted run: the activity predicate that decides which steps of the FIRST block of a run take part is the same, tolerance included, as the one used between blocks (shared with C06.R3)', floor=4)
+def r16(ctx, R):
+    from . import c06
+    c06.r3(ctx, R)
